@@ -18,6 +18,14 @@ writes (the controller's own pipeline, or a second pipeline over the same chips 
 Rust through a LcdController value or the Box<dyn LcdHal> of create_lcd().  After each clean history its write-only
 projection is additionally replayed from power-on through replay_operations() and a fresh LCDPipeline().replay().
 
+Machine-level access paths (round 4): in 1/4 of the histories the Python side is a controller behind the machine's
+memory bus -- PCE500Memory.set_lcd_controller + write_byte/read_byte, PCE500Emulator().memory, or the emulator's CPU
+executing `MV [abs20],A` / `MV A,[abs20]` -- and, independently, in 1/4 the Rust side is a whole CoreRuntime stepping
+the same two instructions (CPU -> RuntimeBus -> LcdHal).  The contents of the flat memory image underneath the two
+LCD windows are a generated dimension (zeros / constant fill incl. status look-alikes / hash pattern): what the CPU
+reads from a port that a chip drives must be the protocol's byte whatever lies underneath (0x00 included); where no
+chip drives the bus (write addresses, CS both/none) the byte is memory routing and is not judged.
+
 Part B (pixel map, complete enumeration): for every chip x page x column x bit (8192 VRAM bits) the bit is
 flipped by a data write and the 32x240 display buffer is diffed: every VRAM bit changes at most one pixel,
 every one of the 7680 pixels is changed by exactly one VRAM bit, a multi-bit data write changes at most eight
@@ -46,7 +54,12 @@ RULE = ("(A) histories of 40-320 ops (LCD-window accesses) from a deterministic 
         "2^15..3*2^16 writes per shard); 1/3 of the histories additionally use raw accesses over all 16 "
         "low-nibble decodings in both directions; per history a generated feeding path (Python: controller.write, "
         "pipeline.apply_raw/apply, pipeline.replay of write groups with/without/late observer; Rust: LcdController "
-        "value or Box<dyn LcdHal>); every step (Python: every write group) compared model/Python/Rust; the write-only "
+        "value or Box<dyn LcdHal>); machine-level paths: in 1/4 of the histories Python writes AND reads go through "
+        "PCE500Memory.set_lcd_controller + write_byte/read_byte, PCE500Emulator().memory or PCE500Emulator.step() of "
+        "MV [abs20],A / MV A,[abs20] (<= 2500 accesses), in 1/4 (independently) Rust runs a CoreRuntime stepping the same "
+        "instructions, with generated contents (zeros 1/8, constant fill 3/8, hash pattern 1/2) of the memory image "
+        "underneath both LCD windows; 1/6 of the Python machine histories present low-window addresses 0x2010-0x2FFF "
+        "unfolded; every step (Python: every write group) compared model/Python/Rust; the write-only "
         "projection of every clean history is replayed from power-on through replay_operations() and a fresh "
         "LCDPipeline().replay(). Non-trivial = on BOTH chips "
         "the column counter wrapped 63->0 or a data read followed a set-Y; distinct = hash of the op list + path options. "
@@ -57,8 +70,17 @@ REG_NAMES = ("on", "start_line", "page", "y_address")
 Obs = Tuple[Any, List[Tuple[Any, Any, Any, Any]], bytes]  # (read result [run: (last, answered, digest)], regs x2, vram 1024)
 
 ASSUMPTIONS = [
-    "controller objects are driven directly (HD61202Controller.read/write, LcdController::read/write); routing of the "
-    "windows through the memory bus is C11's subject",
+    "controller objects are driven directly (HD61202Controller.read/write, LcdController::read/write) or, on the "
+    "machine paths, through the machine's bus (PCE500Memory / PCE500Emulator / CoreRuntime::step); on the machine paths "
+    "the byte read at an address where no chip drives the bus (A0=0, CS=both, CS=none: the model returns nothing) is "
+    "memory routing (C11's subject; Python shows external_memory, Rust shows its image incl. the LCD writes it stores "
+    "there) and is not compared -- the chips' state after such an access still is",
+    "machine paths: the memory image underneath the LCD windows is laid down as PCE500Emulator.load_snapshot does "
+    "(external_memory[...] = bytes) / with MemoryImage::write_external_slice; the two instructions are those of lib.rs' "
+    "tests lcd_mapped_write_counts_as_memory_write / lcd_mapped_read_counts_as_memory_read, A is set/read through the "
+    "register API, timers are disabled (the knobs the maintainers' tests use); by default low-window addresses "
+    "0x2010-0x2FFF are folded onto 0x2000-0x200F for the Python machine (see known finding "
+    "C15-py-machine-low-window-16-bytes for the unfolded ones)",
     "addresses stay inside 0x2000-0x2FFF / 0xA000-0xAFFF; values 0..255",
     "a write to an A0=1 (read) address or a read from an A0=0 (write) address has no documented protocol meaning "
     "(README: A0 is the chips' R/W line; Python's test_read_operation_error rejects such writes while a Rust unit test "
@@ -90,9 +112,33 @@ ASSUMPTIONS = [
 # Drivers
 # ---------------------------------------------------------------------------------------------------------
 
-PY_VIAS = ("controller", "apply-raw", "apply", "replay-observed", "replay", "replay-late-observer")
+PY_VIAS = ("controller", "apply-raw", "apply", "replay-observed", "replay", "replay-late-observer",
+           "bus", "emulator", "cpu")
 REPLAY_VIAS = ("replay-observed", "replay", "replay-late-observer")
-RS_VIAS = ("direct", "hal")
+MACHINE_VIAS = ("bus", "emulator", "cpu")  # the controller sits behind the machine's memory bus
+RS_VIAS = ("direct", "hal", "machine")
+LCD_WINDOWS = (0x2000, 0xA000)  # 4 KiB each
+PROG_BASE, PROG_SLOTS = 0xB8000, 0x1800  # 4-byte instruction slots in the internal RAM (cpu path; = c15.rs)
+CPU_PATH_MAX = 2500  # expanded accesses a history may have on the (slow) Python cpu path
+DEFAULT_BACKING = ["zeros"]
+
+
+def backing_bytes(spec: Sequence[Any], base: int) -> bytes:
+    """Contents of the flat backing store underneath one 4 KiB LCD window (what a memory image / snapshot holds
+    there; Rust's bus stores every LCD write into it, so a snapshot taken on the Rust core is non-zero there)."""
+    kind = spec[0]
+    if kind == "zeros":
+        return bytes(0x1000)
+    if kind == "fill":
+        return bytes([int(spec[1]) & 0xFF]) * 0x1000
+    if kind == "hash":
+        return bytes(mix32(int(spec[1]), 0xBAC, base >> 12, i) & 0xFF for i in range(256)) * 16
+    raise HarnessError(f"unknown backing {spec!r}")
+
+
+def unrouted_py(addr: int) -> bool:
+    """Addresses of the low window outside the 16 bytes PCE500Memory.set_lcd_controller maps (0x2000-0x200F)."""
+    return 0x2010 <= addr <= 0x2FFF
 
 
 def _noop_observer(_event: Dict[str, Any], _snapshot: Any) -> None:
@@ -109,19 +155,52 @@ class PyLcd:
       replay-observed       controller.pipeline.replay([...])     (the controller's observer is subscribed)
       replay                LCDPipeline(chips=controller.chips).replay([...])   (nobody subscribed)
       replay-late-observer  as `replay`; an observer is subscribed after `observe_at` replay calls
+    Machine paths (writes AND reads go through the machine's memory bus, the controller is the one attached to it;
+    `backing` = contents of external_memory underneath the two LCD windows, laid down the way load_snapshot() does;
+    a read of an address at which no chip drives the bus -- M.drives_bus() -- is reported as None: the byte the bus
+    returns there is memory routing, not LCD protocol):
+      bus                   PCE500Memory().set_lcd_controller(HD61202Controller()); memory.write_byte / read_byte
+      emulator              PCE500Emulator().memory.write_byte / read_byte, controller = emulator.lcd
+      cpu                   PCE500Emulator().step() of `MV [abs20],A` / `MV A,[abs20]` (A through the register file)
+    `lowwin` = "routed" folds low-window addresses 0x2010-0x2FFF onto 0x2000-0x200F (the part PCE500Memory maps),
+    "full" presents them unchanged.
     """
 
-    def __init__(self, via: str = "controller", observe_at: int = 0) -> None:
+    def __init__(self, via: str = "controller", observe_at: int = 0, backing: Sequence[Any] = DEFAULT_BACKING,
+                 lowwin: str = "routed") -> None:
         from pce500.display.controller_wrapper import HD61202Controller
         from pce500.display.pipeline import LCDPipeline
 
         if via not in PY_VIAS:
             raise HarnessError(f"unknown python path {via!r}")
-        self.c = HD61202Controller()
+        self.mem = None
+        self.emu = None
+        self.lowwin = lowwin
+        self.n_exec = 0
+        if via == "bus":
+            from pce500.memory import PCE500Memory
+
+            self.mem = PCE500Memory()
+            self.c = HD61202Controller()
+            self.mem.set_lcd_controller(self.c, enable_overlay=True)
+        elif via in MACHINE_VIAS:
+            from pce500.emulator import PCE500Emulator
+            from sc62015.pysc62015 import RegisterName
+
+            self.RN = RegisterName
+            self.emu = PCE500Emulator(trace_enabled=False, perfetto_trace=False, save_lcd_on_exit=False)
+            self.emu._timer_enabled = False  # the knob the maintainers' tests use: no timer interrupts
+            self.mem = self.emu.memory
+            self.c = self.emu.lcd
+        else:
+            self.c = HD61202Controller()
+        if self.mem is not None:
+            for base in LCD_WINDOWS:
+                self.mem.external_memory[base:base + 0x1000] = backing_bytes(backing, base)
         self.via = via
         self.observe_at = observe_at
         self.replays = 0
-        self.pipe = self.c.pipeline if via in ("controller", "apply-raw", "apply", "replay-observed") \
+        self.pipe = self.c.pipeline if via in ("controller", "apply-raw", "apply", "replay-observed") + MACHINE_VIAS \
             else LCDPipeline(chips=self.c.chips)
         self.last_snapshot = None
         self.shape_problem: Optional[str] = None
@@ -140,6 +219,10 @@ class PyLcd:
         if via == "controller":
             for a, v in writes:
                 self.c.write(a, v)
+            return
+        if via in MACHINE_VIAS:
+            for a, v in writes:
+                self._bus_write(self._addr(a), v)
             return
         if via == "apply-raw":
             for a, v in writes:
@@ -163,15 +246,48 @@ class PyLcd:
         self.replays += 1
         self.last_snapshot = self.pipe.replay(opers)
 
+    # -- machine paths ----------------------------------------------------------------------------------------
+    def _addr(self, a: int) -> int:
+        if self.lowwin == "routed" and unrouted_py(a):
+            return 0x2000 | (a & 0xF)
+        return a
+
+    def _cpu_exec(self, opcode: int, a: int) -> None:
+        slot = PROG_BASE + 4 * (self.n_exec % PROG_SLOTS)
+        self.n_exec += 1
+        for i, b in enumerate((opcode, a & 0xFF, (a >> 8) & 0xFF, (a >> 16) & 0x0F)):
+            self.mem.write_byte(slot + i, b)
+        self.emu.cpu.regs.set(self.RN.PC, slot)
+        self.emu.step()
+
+    def _bus_write(self, a: int, v: int) -> None:
+        if self.via == "cpu":
+            self.emu.cpu.regs.set(self.RN.A, v & 0xFF)
+            self._cpu_exec(0xA8, a)  # MV [abs20],A
+        else:
+            self.mem.write_byte(a, v & 0xFF)
+
+    def _bus_read(self, a: int) -> Any:
+        if self.via == "cpu":
+            self._cpu_exec(0x88, a)  # MV A,[abs20]
+            return self.emu.cpu.regs.get(self.RN.A)
+        return self.mem.read_byte(a)
+
+    def _read1(self, addr: int) -> Any:
+        if self.mem is None:
+            return self.c.read(addr)
+        got = self._bus_read(self._addr(addr))
+        return got if M.drives_bus(addr) else None  # nobody drives the bus: the byte is not an LCD matter
+
     def read(self, addr: int) -> Optional[int]:
         self.last_snapshot = None
-        return self.c.read(addr)
+        return self._read1(addr)
 
     def read_run(self, addr: int, n: int) -> Tuple[Optional[int], int, int]:
         self.last_snapshot = None
         acc = M.RunDigest()
         for _ in range(n):
-            acc.add(self.c.read(addr))
+            acc.add(self._read1(addr))
         return acc.result()
 
     def observe(self, ret: Any) -> Obs:
@@ -273,8 +389,12 @@ def _sel_word(ci: int, sel: Tuple[int, ...]) -> str:
 
 
 def _diff_expected(impl: str, exp: Obs, obs: Obs, prev: Obs, sel: Tuple[int, ...], is_status: bool,
-                   pre_cell: Optional[int], shape: Optional[str] = None) -> Tuple[List[str], List[str], List[str]]:
-    """Field-level diff of one implementation against the model -> (fields, symptoms, details)."""
+                   pre_cell: Optional[int], shape: Optional[str] = None,
+                   below: Optional[int] = None) -> Tuple[List[str], List[str], List[str]]:
+    """Field-level diff of one implementation against the model -> (fields, symptoms, details).
+
+    `below` (machine paths only) = the byte the memory image holds underneath the port: used to NAME a wrong read
+    value (one symptom for 'the backing store shows through' whatever that byte is), never to decide a verdict."""
     fields: List[str] = []
     sym: List[str] = []
     det: List[str] = []
@@ -283,7 +403,9 @@ def _diff_expected(impl: str, exp: Obs, obs: Obs, prev: Obs, sel: Tuple[int, ...
     if er != orr and isinstance(er, tuple):
         fields.append("read-value")
         ol = orr if isinstance(orr, tuple) and len(orr) == 3 else (orr, None, None)
-        if is_status and isinstance(er[0], int) and isinstance(ol[0], int) and er[0] != ol[0]:
+        if below is not None and ol[0] == below and er[0] != below and er[1] == ol[1]:
+            sym.append("read run: returned the memory byte underneath the port instead of the byte the chip drives")
+        elif is_status and isinstance(er[0], int) and isinstance(ol[0], int) and er[0] != ol[0]:
             bits = []
             x = (er[0] ^ ol[0]) & 0xFF
             if x & 0x80:
@@ -304,6 +426,8 @@ def _diff_expected(impl: str, exp: Obs, obs: Obs, prev: Obs, sel: Tuple[int, ...
             sym.append("read returned a value where the protocol returns nothing")
         elif orr is None:
             sym.append("read returned nothing")
+        elif below is not None and orr == below:
+            sym.append("read returned the memory byte underneath the port instead of the byte the chip drives")
         elif is_status:
             bits = []
             x = (er ^ orr) & 0xFF
@@ -396,9 +520,26 @@ def _rs_obs(step: Dict[str, Any], rs_vram: bytearray) -> Obs:
     return ret, regs, bytes(rs_vram)
 
 
-def _rs_probe_busy(prefix: List[List[Any]], rs_via: str = "direct") -> Optional[List[bool]]:
+def rs_req(ops: List[List[Any]], opts: Dict[str, Any], snap: bool = True) -> Dict[str, Any]:
+    req: Dict[str, Any] = {"ops": ops, "snap": snap, "via": opts["rs_via"]}
+    if opts["rs_via"] == "machine":
+        req["backing"] = [[base, backing_bytes(opts.get("backing", DEFAULT_BACKING), base).hex()] for base in LCD_WINDOWS]
+    return req
+
+
+def _rs_mask(op: Sequence[Any], ret: Any) -> Any:
+    """Machine path: register A after `MV A,[addr]` is always a byte; where no chip drives the bus it is whatever the
+    memory image holds (routing, not LCD protocol) and is reported as 'nothing', as LcdController::read does."""
+    if op[0] == "r" and not M.drives_bus(op[1]):
+        return None
+    if op[0] == "R" and not M.drives_bus(op[1]):
+        return M.undriven_run(op[2])
+    return ret
+
+
+def _rs_probe_busy(prefix: List[List[Any]], opts: Dict[str, Any]) -> Optional[List[bool]]:
     probe = [list(o) for o in prefix] + [["r", 0x2009], ["r", 0x2005]]  # status read: left, right
-    rr = rs_run([{"ops": probe, "snap": False, "via": rs_via}])[0]
+    rr = rs_run([rs_req(probe, opts, False)])[0]
     steps = rr.get("steps", [])
     if len(steps) != len(probe):
         return None  # a panic inside the prefix is reported by the main comparison
@@ -414,7 +555,8 @@ def _rs_probe_busy(prefix: List[List[Any]], rs_via: str = "direct") -> Optional[
 def case_opts(case: Dict[str, Any]) -> Dict[str, Any]:
     """Path options of a history case (defaults = the round-1 configuration)."""
     return {"py_via": case.get("py_via", "controller"), "rs_via": case.get("rs_via", "direct"),
-            "group": max(1, int(case.get("group", 1))), "observe_at": int(case.get("observe_at", 0))}
+            "group": max(1, int(case.get("group", 1))), "observe_at": int(case.get("observe_at", 0)),
+            "backing": list(case.get("backing", DEFAULT_BACKING)), "lowwin": case.get("lowwin", "routed")}
 
 
 def _make_case(ops: List[List[Any]], opts: Dict[str, Any]) -> Dict[str, Any]:
@@ -427,6 +569,10 @@ def _make_case(ops: List[List[Any]], opts: Dict[str, Any]) -> Dict[str, Any]:
         case["observe_at"] = opts["observe_at"]
     if opts["rs_via"] != "direct":
         case["rs_via"] = opts["rs_via"]
+    if opts["py_via"] in MACHINE_VIAS or opts["rs_via"] == "machine":
+        case["backing"] = list(opts.get("backing", DEFAULT_BACKING))
+    if opts["py_via"] in MACHINE_VIAS and opts.get("lowwin", "routed") != "routed":
+        case["lowwin"] = opts["lowwin"]
     return case
 
 
@@ -466,10 +612,18 @@ def judge_history(ops: List[List[Any]], rs_result: Dict[str, Any],
     grouping = py_via in REPLAY_VIAS and group > 1
     py_tag = "py" if py_via == "controller" else f"py[{py_via}]"
     rs_tag = "rs" if rs_via == "direct" else f"rs[{rs_via}]"
+    backing = opts.get("backing", DEFAULT_BACKING)
+    lowwin = opts.get("lowwin", "routed")
+    py_machine, rs_machine = py_via in MACHINE_VIAS, rs_via == "machine"
+    under = {base >> 12: backing_bytes(backing, base) for base in LCD_WINDOWS} if py_machine or rs_machine else None
     viols: List[Violation] = []
     labels: set = set()
+    if under is not None:
+        labels.add(f"backing:{backing[0]}")
+    if py_machine and lowwin != "routed":
+        labels.add(f"py-low-window:{lowwin}")
     model = M.Model()
-    py = PyLcd(py_via, opts["observe_at"])
+    py = PyLcd(py_via, opts["observe_at"], backing, lowwin)
     rs_steps = rs_result.get("steps", [])
     rs_vram = bytearray(1024)
     init: Obs = (None, [(False, 0, 0, 0), (False, 0, 0, 0)], bytes(1024))
@@ -521,6 +675,9 @@ def judge_history(ops: List[List[Any]], rs_result: Dict[str, Any],
         pre_cell = None
         is_write = kind in ("w", "W")
         where, matched = _classify(op)
+        # the Python machine maps only 16 bytes of the low window: keep that root cause apart (own `where`)
+        py_unrouted = py_machine and lowwin != "routed" and unrouted_py(addr)
+        where_py = where + " @low-window 0x2010-0x2FFF" if py_unrouted else where
         if is_write:
             if kind == "w":
                 model.write(addr, op[2])
@@ -538,6 +695,10 @@ def judge_history(ops: List[List[Any]], rs_result: Dict[str, Any],
                     c = model.chips[sel[0]]
                     pre_cell = c.vram[c.page * 64 + c.y]
                 exp_ret = model.read(addr)
+                if under is not None and exp_ret is not None and matched:
+                    below = under[addr >> 12][addr & 0xFFF]
+                    labels.add("bus-read:" + ("0x00" if exp_ret == 0 else "non-zero") + " over " +
+                               ("0x00" if below == 0 else "the same byte" if below == exp_ret else "a different byte"))
             else:
                 exp_ret = model.read_run(addr, op[2])
             if matched and not di and len(sel) == 1:
@@ -572,26 +733,38 @@ def judge_history(ops: List[List[Any]], rs_result: Dict[str, Any],
             else:
                 py_obs = py.observe(py.read_run(addr, op[2]))
         except Exception as exc:  # noqa: BLE001 -- any exception on a window access is a protocol violation
-            viols.append(Violation(f"{py_tag}:exception", where, f"raises {type(exc).__name__}", case, repr(exc)[:200]))
+            viols.append(Violation(f"{py_tag}:exception", where_py, f"raises {type(exc).__name__}", case, repr(exc)[:200]))
             break
         # --- Rust step
         if i >= len(rs_steps):
             viols.append(Violation(f"{rs_tag}:panic", where, "rust panicked", case, str(rs_result.get("panic"))[:200]))
             break
         rs_obs = _rs_obs(rs_steps[i], rs_vram)
+        if rs_machine:
+            rs_obs = (_rs_mask(op, rs_obs[0]), rs_obs[1], rs_obs[2])
         exp: Obs = (exp_ret, model.regs(), model.vram())
         stop = False
         is_status = (not is_write) and not di
         if matched:
-            todo = [(rs_tag, rs_obs, prev_rs, None)]
+            todo = [(rs_tag, rs_obs, prev_rs, None, where,
+                     under[addr >> 12][addr & 0xFFF] if rs_machine and not is_write else None)]
             if py_obs is not None:
-                todo.insert(0, (py_tag, py_obs, prev_py, py.shape_problem))
-            for impl, obs, prev, shape in todo:
-                fields, sym, det = _diff_expected(impl, exp, obs, prev, sel, is_status, pre_cell, shape)
+                pa = py._addr(addr)
+                todo.insert(0, (py_tag, py_obs, prev_py, py.shape_problem, where_py,
+                                under[pa >> 12][pa & 0xFFF] if py_machine and not is_write else None))
+            for impl, obs, prev, shape, wh, below in todo:
+                fields, sym, det = _diff_expected(impl, exp, obs, prev, sel, is_status, pre_cell, shape, below)
                 if fields:
-                    viols.append(Violation(f"{impl}:" + "+".join(sorted(set(fields))), where, "; ".join(sym), case,
+                    viols.append(Violation(f"{impl}:" + "+".join(sorted(set(fields))), wh, "; ".join(sym), case,
                                            f"step {i} {op}: " + "; ".join(det)))
                     stop = True
+            if py_unrouted and py_obs is not None and not stop and py.busy() != [c.busy for c in model.chips]:
+                # an access the machine did not route leaves no visible trace when it only concerns the busy flag;
+                # attribute it to this step instead of to a later status read
+                viols.append(Violation(f"{py_tag}:busy", where_py, "busy flag of a chip wrong after the access", case,
+                                       f"step {i} {op}: busy [left,right] expected {[c.busy for c in model.chips]} "
+                                       f"got {py.busy()}"))
+                stop = True
             if py_obs is None and not stop and last_of_group:
                 stop = py_flush(i, where)
         else:
@@ -607,7 +780,7 @@ def judge_history(ops: List[List[Any]], rs_result: Dict[str, Any],
                 # The busy flags are not part of either snapshot.  Python's is a public attribute; Rust's is probed
                 # on a fresh controller that replays the prefix and then reads both chips' status.
                 py_busy = py.busy()
-                rs_busy = _rs_probe_busy(ops[:i + 1], rs_via)
+                rs_busy = _rs_probe_busy(ops[:i + 1], opts)
                 if rs_busy is None:
                     labels.add("busy-probe-unavailable")
                 elif py_busy != rs_busy:
@@ -707,27 +880,34 @@ def judge_projection(ops: List[List[Any]], paths: Sequence[str] = PROJECTION_PAT
 
 
 def attribute_paths(viols: List[Violation], opts: Dict[str, Any]) -> List[Violation]:
-    """Keep one fingerprint per root cause: a violation found on a non-default feeding path (py[...] / rs[hal]) is
-    re-examined on the default path (HD61202Controller.write one by one / LcdController value) with the same ops.
-    If the default path violates too, the cause is not the path and that (genuine, separately reproducible)
-    default-path violation is reported instead; otherwise the path-tagged one stands."""
+    """Keep one fingerprint per root cause: a violation found on a non-default feeding path (py[...] / rs[...]) is
+    re-examined with the same ops on the next simpler path -- py[emulator] / py[cpu] on py[bus] (a bare PCE500Memory
+    with the controller attached), everything else on the default path (HD61202Controller.write one by one /
+    LcdController value).  If the simpler path violates too, the cause is not the path and that (genuine, separately
+    reproducible) violation is reported instead; otherwise the path-tagged one stands."""
     out: List[Violation] = []
     for v in viols:
-        tag = v.subcheck.split(":", 1)[0]
-        if "[" not in tag:
-            out.append(v)
-            continue
-        base = dict(opts)
-        side = tag.split("[", 1)[0]
-        if side == "py":
-            base.update(py_via="controller", group=1, observe_at=0)
-        else:
-            base.update(rs_via="direct")
-        ops = [list(o) for o in v.case["ops"]]
-        rr = rs_run([{"ops": ops, "snap": True, "via": base["rs_via"]}])[0]
-        again, _l, _n, _i = judge_history(ops, rr, base)
-        same_side = [x for x in again if x.subcheck.split(":", 1)[0] == side]
-        out.append(same_side[0] if same_side else v)
+        while True:
+            tag = v.subcheck.split(":", 1)[0]
+            if "[" not in tag:
+                break
+            base = case_opts(v.case)
+            side = tag.split("[", 1)[0]
+            if side == "py":
+                if base["py_via"] in ("emulator", "cpu"):
+                    base.update(py_via="bus")
+                else:
+                    base.update(py_via="controller", group=1, observe_at=0)
+            else:
+                base.update(rs_via="direct")
+            ops = [list(o) for o in v.case["ops"]]
+            rr = rs_run([rs_req(ops, base)])[0]
+            again, _l, _n, _i = judge_history(ops, rr, base)
+            same_side = [x for x in again if x.subcheck.split(":", 1)[0].split("[", 1)[0] == side]
+            if not same_side:
+                break
+            v = same_side[0]
+        out.append(v)
     seen = set()
     uniq = []
     for v in out:
@@ -758,7 +938,25 @@ def history_plan(seed: int, shard: int, j: int) -> Tuple[List[List[Any]], str, D
     py_via = so.choice(("controller", "controller", "controller", "apply-raw", "apply", "replay-observed",
                         "replay", "replay", "replay-late-observer"))
     opts = {"py_via": py_via, "rs_via": "hal" if so.chance(1, 4) else "direct",
-            "group": so.choice((1, 2, 4, 16, 1000)), "observe_at": so.below(6)}
+            "group": so.choice((1, 2, 4, 16, 1000)), "observe_at": so.below(6),
+            "backing": list(DEFAULT_BACKING), "lowwin": "routed"}
+    # machine-level access paths (own stream: the distribution of the other options is left as it was)
+    sm = Stream(seed, 0xC15B, shard, j)
+    if sm.chance(1, 4):
+        opts["py_via"] = sm.choice(("bus", "bus", "emulator", "cpu", "cpu"))
+        if opts["py_via"] == "cpu" and sum(o[4] if o[0] == "W" else o[2] if o[0] == "R" else 1 for o in ops) > CPU_PATH_MAX:
+            opts["py_via"] = "emulator"
+        if sm.chance(1, 6):
+            opts["lowwin"] = "full"
+    if sm.chance(1, 4):
+        opts["rs_via"] = "machine"
+    k = sm.below(8)
+    if k == 0:
+        opts["backing"] = ["zeros"]
+    elif k < 4:  # constant fill: bytes that look like a status / like blank or full columns, or anything
+        opts["backing"] = ["fill", sm.choice((0xFF, 0x5A, 0x80, 0x20, 0xA0, 0x01, 1 + sm.below(255), 1 + sm.below(255)))]
+    else:
+        opts["backing"] = ["hash", sm.below(1 << 30)]
     return ops, profile, opts
 
 
@@ -769,7 +967,7 @@ def _hist_shard(task: Tuple[int, int, int, str]) -> Report:
     B = 24
     for i in range(0, len(hists), B):
         chunk = hists[i:i + B]
-        rs_res = rs_run([{"ops": ops, "snap": True, "via": opts["rs_via"]} for ops, _p, opts in chunk])
+        rs_res = rs_run([rs_req(ops, opts) for ops, _p, opts in chunk])
         for (ops, profile, opts), rr in zip(chunk, rs_res):
             viols, labels, nt, info = judge_history(ops, rr, opts)
             viols = attribute_paths(viols, opts)
@@ -1111,7 +1309,7 @@ def _judge_case(case: Dict[str, Any]) -> List[Violation]:
     if case.get("kind") == "projection":
         return judge_projection(ops, [case["path"]])
     opts = case_opts(case)
-    rr = rs_run([{"ops": ops, "snap": True, "via": opts["rs_via"]}])[0]
+    rr = rs_run([rs_req(ops, opts)])[0]
     viols, _labels, _nt, _info = judge_history(ops, rr, opts)
     return viols
 
